@@ -397,6 +397,9 @@ func runRefcount(w *mon.Worker, prop string) {
 	for i := 0; i < w.Share(w.Scale(400, 40000)); i++ {
 		w.Case("option-combinations", nil, rfOptionCombinationsCase)
 	}
+	for i := 0; i < w.Share(w.Scale(400, 40000)); i++ {
+		w.Case("promise-reference", nil, rfPromiseRefCase)
+	}
 	mon.ClearProb()
 	if prop == "C10" {
 		// consumers depend on it too: a result obtained after the owner cancelled the root context is still delivered
@@ -1817,4 +1820,100 @@ func rfOptionCombinationsCase(c *mon.Case) {
 		return
 	}
 	rc.ClearContext()
+}
+
+// rfPromiseRefCase: AddRefPromise hands out a promise that follows the RefCount's value. Once the value was invalidated
+// (its release function has run) the promise no longer yields it: a later Await waits for the next value.
+func rfPromiseRefCase(c *mon.Case) {
+	r := c.Rng
+	how := r.IntN(3) // 0 released(), 1 SetContext(new), 2 ClearContext (no next value at all)
+	gate := make(chan struct{})
+	var mu sync.Mutex
+	var releasedFns []func()
+	var rels [4]atomic.Int64
+	calls := 0
+	resolver := func(ctx context.Context, released func()) (int, func(), error) {
+		mu.Lock()
+		n := calls
+		calls++
+		releasedFns = append(releasedFns, released)
+		mu.Unlock()
+		if n >= 1 {
+			select {
+			case <-gate:
+			case <-ctx.Done():
+				return 0, nil, context.Canceled
+			}
+		}
+		if n >= len(rels) {
+			return 0, nil, fmt.Errorf("too many resolver calls")
+		}
+		return 100 + n, func() { rels[n].Add(1) }, nil
+	}
+	rc := refcount.NewRefCount[int](nil, false, nil, nil, resolver)
+	ctx1, cancel1 := context.WithCancel(context.Background())
+	defer cancel1()
+	rc.SetContext(ctx1)
+	prom, ref := rc.AddRefPromise()
+	v1, err1 := prom.Await(context.Background())
+	if err1 != nil || v1 != 100 {
+		c.Violate("consumer", "refcount-consumer-foreign-value", "the promise of AddRefPromise yielded (%d, %v), the resolver resolved to 100", v1, err1)
+		return
+	}
+	ctx2, cancel2 := context.WithCancel(context.Background())
+	defer cancel2()
+	switch how {
+	case 0:
+		mu.Lock()
+		f := releasedFns[0]
+		mu.Unlock()
+		f()
+	case 1:
+		rc.SetContext(ctx2)
+	default:
+		rc.ClearContext()
+	}
+	if !mon.Quiesce(5 * time.Second) {
+		c.Inconclusive("no quiescence after the invalidation")
+		return
+	}
+	if rels[0].Load() != 1 {
+		c.Violate("release", "refcount-value-not-released", "the first value was invalidated (%d: 0 released(), 1 SetContext, 2 ClearContext) but its release function has run %d times at quiescence", how, rels[0].Load())
+		return
+	}
+	// the first value is released; the next one is not there yet (the resolver is parked / there is no context)
+	var v2 int
+	var err2 error
+	var done atomic.Bool
+	actx, acancel := context.WithCancel(context.Background())
+	defer acancel()
+	c.Go("awaiter", func() {
+		v2, err2 = prom.Await(actx)
+		done.Store(true)
+	})
+	c.Count("promise_reference_templates", 1)
+	c.NonTrivial()
+	c.Mix(uint64(how))
+	if !mon.Quiesce(5 * time.Second) {
+		c.Inconclusive("no quiescence")
+		return
+	}
+	if done.Load() && err2 == nil && v2 == 100 {
+		c.Violate("consumer", "refcount-consumer-got-released-value", "the value 100 was invalidated and its release function has run; a later Await on the promise of AddRefPromise still returned 100 although no new value exists yet")
+		return
+	}
+	if how != 2 {
+		close(gate)
+		if !mon.Quiesce(5 * time.Second) {
+			c.Inconclusive("no quiescence after the next value")
+			return
+		}
+		if !done.Load() || err2 != nil || v2 != 101 {
+			c.Violate("consumer", "refcount-consumer-blocked-with-result", "after the next value (101) resolved, the Await on the promise of AddRefPromise has returned=%v (%d, %v)", done.Load(), v2, err2)
+		}
+	}
+	acancel()
+	ref.Release()
+	rc.ClearContext()
+	c.WaitActors(5 * time.Second)
 }
